@@ -35,6 +35,7 @@ ARR = {
     'swap': ('pos', 'row'), 'iswap': ('row', 'pos'),
     'xprune': ('pos', 'ls'),
     'relax_end': ('pos', 'pos'),
+    'marker_relax': ('row', 'pos'),
     # depth-first-search work arrays of the symbolic phase (per panel column for the panel versions: the *_col aliases inherit the range)
     'segrep': (None, 'pos'), 'repfnz': ('pos', 'pos'), 'parent': ('pos', 'pos'), 'xplore': ('pos', 'ls'),
 }
@@ -52,6 +53,8 @@ for _p in 'sdcz':
     RECT |= {_p + x for x in RECT_P} | {'sp_%sgemv' % _p, 'sp_%sgemm' % _p}
 # parameters whose name fixes their kind throughout the factorization code (value, or pointee for an `int *` out-parameter)
 PARAM_KINDS = {'jcol': 'pos', 'fsupc': 'pos', 'pivrow': 'row'}
+LOCAL_KINDS = {'jcol': 'pos', 'kcol': 'pos', 'icol': 'pos', 'jj': 'pos'}
+LOCAL_KIND_FUNCS = {'gstrf', 'gsitrf'}
 PARAM_EXT = {('gsequ', 'r'): 'M', ('gsequ', 'c'): 'N', ('laqgs', 'r'): 'M', ('laqgs', 'c'): 'N'}
 # routines that relabel lsub from rows to positions / work on the final (position-labelled) structure
 EXEMPT_FUNCS = {'fixupL'}
@@ -189,7 +192,10 @@ class Analyzer(object):
     def kind(self, e, env):
         e = strip(e)
         if e.k == 'Ref':
-            return env.get(e.a.get('id'))
+            k0 = env.get(e.a.get('id'))
+            if k0 is None and e.a.get('dk') == 'VarDecl' and e.a.get('name') in LOCAL_KINDS and self.f.name[1:] in LOCAL_KIND_FUNCS:
+                return ('role', LOCAL_KINDS[e.a.get('name')])      # the column counters of the factor routines
+            return k0
         if e.k == 'Unary':
             op = e.a['op']
             if op == '*' and strip(e.c[0]).k == 'Ref':
